@@ -453,3 +453,20 @@ class Sem:
 
     def some_of(self, e):
         return self.w.ident(simplify(E("proj", (e,), "some")))
+
+    def label_nd(self, e):
+        """label ignoring default alternatives (DEFAULT / explicit zero of a missing entry)"""
+        from .expr import DEFAULT
+        i = self.w.ident(e)
+        if i.op != "phi":
+            return self.label(i)
+        labs = []
+        for a in i.args:
+            if a == DEFAULT:
+                continue
+            l = self.label(a)
+            if l is not None and l[0] == "const" and l[1] == "lib" and l[2].endswith("::zero"):
+                continue
+            if l not in labs:
+                labs.append(l)
+        return labs[0] if len(labs) == 1 else None
